@@ -42,8 +42,11 @@ def _min_dtype_for_encoding(data_encoding: encodings.DataEncoding):
             datatype += "16"
         elif nbits <= 32:
             datatype += "32"
-        else:
+        elif nbits <= 64:
             datatype += "64"
+        else:
+            # Wider than any fixed size numpy integer: keep the Python ints
+            datatype = "object"
     elif isinstance(data_encoding, encodings.FloatDataEncoding):
         nbits = data_encoding.size_in_bits
         datatype = "float"
